@@ -282,6 +282,34 @@ func TestVerifC04ECS(t *testing.T) {
 
 			return nil
 		})
+		// Question types and classes whose 16-bit codes share an octet (CAA =
+		// 0x0101 and URI = 0x0100 against A = 0x0001, class CH = 3 against type
+		// NS... = 2/3): a cache key that packs or truncates the two codes makes
+		// them collide.  The upstream's records are a function of (qtype,
+		// qclass), so an answer cached for another question is visible.
+		var wide []*ecsQuery
+		for _, tc := range [][2]uint16{{dns.TypeA, dns.ClassINET}, {dns.TypeCAA, dns.ClassINET}, {dns.TypeURI, dns.ClassINET}, {dns.TypeA, dns.ClassCHAOS},
+			{dns.TypeMD, dns.ClassINET}, {dns.TypeA, 257}, {dns.TypeSVCB + 256, dns.ClassINET}, {dns.TypeAAAA, dns.ClassINET}, {dns.TypeAAAA + 256, dns.ClassINET}, {dns.TypeA, dns.ClassANY}} {
+			wide = append(wide, q(c04X1, "s0.", tc[0], tc[1], false, false, ""), q(c04X1, "dep.", tc[0], tc[1], false, false, ""))
+		}
+		vrt.Part(r, "ecs-wide-codes", func(emit func(c04bCase)) {
+			vrt.Sequences(len(wide), 2, vrt.Pick(r, 2, 3), func(seq []int) { emit(c04bCase{Events: append([]int{}, seq...)}) })
+		}, func(c c04bCase) []vrt.Finding {
+			rig := ecsNewRig("ok", false)
+			for i, ei := range c.Events {
+				resp, _, err := rig.query(*wide[ei], uint16(0x300+i))
+				fresp, _, ferr := ecsNewRig("ok", false).query(*wide[ei], uint16(0x300+i))
+				r.Trans(2)
+				got, want := fmt.Sprintf("err=%v %s", err != nil, vdns.Canon(resp, false)), fmt.Sprintf("err=%v %s", ferr != nil, vdns.Canon(fresp, false))
+				if got != want {
+					return vrt.F("ecs-wide-codes/cached-differs-from-fresh", "query %+v after %v:\n   warm : %s\n   fresh: %s", *wide[ei], c.Events[:i], got, want)
+				}
+				r.State(fmt.Sprint("wide", c.Events[:i+1], got))
+			}
+			r.Class("wide-codes")
+
+			return nil
+		})
 		// A TRANSIENT GeoIP fault: SubnetByLocation fails for exactly one query
 		// of the history.  Whatever that query is answered with (not judged),
 		// nothing it leaves in the caches may change what later queries of
